@@ -26,8 +26,13 @@ def _with_dtype(dt, fn):
         ViewBase.set_dtype(np.int64)
 
 
+STRICT = [False]          # reductions (C05 bodies): the result is data, its element type must not follow the index width
+
+
 def _strip_index_dtype(o):
     """row-length / index arrays legitimately carry the configured index dtype: compare their values, not their width"""
+    if STRICT[0]:
+        return o
     if isinstance(o, dict):
         if o.get("k") in ("array", "ragged", "scalar") and o.get("dtype") in ("int32", "int64"):
             o = dict(o, dtype="*")
@@ -39,6 +44,7 @@ def _strip_index_dtype(o):
 def sym(E, p, kf):
     from symx import specs
     H = _base(p)
+    STRICT[0] = p["bmod"] == "c05" and p["bp"].get("op") in ("sum", "prod", "max", "min")
     r64 = _with_dtype(np.int64, lambda: H["sym"](E, p["bp"], kf))
     r32 = _with_dtype(np.int32, lambda: H["sym"](E, p["bp"], kf))
     g64, g32 = r64.get("got"), r32.get("got")
@@ -57,6 +63,7 @@ def sym(E, p, kf):
 def conc(case):
     p = case["p"]
     H = _base(p)
+    STRICT[0] = p["bmod"] == "c05" and p["bp"].get("op") in ("sum", "prod", "max", "min")
     base = dict(case["base"])
     r64 = _with_dtype(np.int64, lambda: H["conc"](dict(base)))
     r32 = _with_dtype(np.int32, lambda: H["conc"](dict(base)))
@@ -94,6 +101,8 @@ def jobs(tier, seed):
     add("c03", "C03.setitem", dict(R=2, L=2, B=3, ck="none", vk="column", rk="all"))
     for op in ("sum", "any", "max"):
         add("c05", "C05.reduce", dict(R=3, L=3, op=op, via="method", Rmin=1 if op == "max" else 0))
+    add("c05", "C05.reduce", dict(R=3, L=2, op="sum", via="np"))
+    add("c05", "C05.reduce", dict(R=3, L=2, op="prod", via="method"))
     add("c05", "C05.reduce", dict(R=3, L=3, op="sum", via="none"))
     for op in ("cumsum", "acc_add", "sort", "unique_counts", "diff"):
         add("c07", "C07.rowwise", dict(R=3, L=3, op=op, n=1))
